@@ -11,7 +11,9 @@ RULE = ('corpus, curated and decorated molecules accepted by both toolkits, norm
         'carbon stereocentres and stereo double bonds, with 2D coordinates, isotopes, charges, radicals and atom maps, each '
         'also under the re-description transformer (so RDKit sees many neighbour orders); oracle: RDKit canonical isomeric '
         'SMILES of to_rdkit(m) vs of the source text; from_rdkit(MolFromSmiles(text)) vs smiles(text) atom by atom; '
-        'from_rdkit(to_rdkit(m)) vs m atom by atom incl. coordinates and parity descriptors; non-trivial = molecule with a '
+        'from_rdkit(to_rdkit(m)) vs m atom by atom incl. coordinates and parity descriptors; RDKit molecules with hydrogens as atoms '
+        '(AddHs, deuterium on a stereocentre) in random spellings so that the hydrogen stands at every neighbour position; 22 '
+        'complexes with coordinate bonds under renumbering (donor direction, per-atom comparison, way back); non-trivial = molecule with a '
         'stereo label, charge, isotope or aromatic hetero atom, distinct by (canonical string, form)')
 ASSUMPTIONS = ['CachedMethods compatibility shim', 'RDKit canonical isomeric SMILES decides equality on the RDKit side; '
                'pseudo-asymmetric centres are compared by atom identity only',
@@ -22,7 +24,7 @@ CONFIG = {
                          'roundtrip.compared': 2500, 'stereo.labels-roundtripped': 1500, 'from_rdkit.explicit-h.all-hydrogens': 120,
                          'from_rdkit.explicit-h.deuterium-on-centre': 120, 'from_rdkit.explicit-h.position-0': 10,
                          'from_rdkit.explicit-h.position-2': 60, 'dative.bonds-checked': 60}},
-    'thorough': {'shards': 16, 'budget_s': 1500, 'n_corpus': 4200, 'k_renum': 8,
+    'thorough': {'shards': 16, 'budget_s': 1500, 'n_corpus': 4200, 'k_renum': 16,
                  'floors': {'evaluations': 80000, 'distinct_nontrivial': 8000, 'to_rdkit.compared': 30000, 'from_rdkit.compared': 4000,
                             'roundtrip.compared': 30000, 'stereo.labels-roundtripped': 15000, 'from_rdkit.explicit-h.all-hydrogens': 600,
                             'from_rdkit.explicit-h.deuterium-on-centre': 600, 'dative.bonds-checked': 150}},
